@@ -1,6 +1,7 @@
 import TvCore.Props.WorldLinks
 import TvCore.Props.C08
 import TvCore.Props.C08Mixed
+import TvCore.Props.LinksWorld
 #print axioms TV.C08.hold_establishes
 #print axioms TV.C08.process_noop
 #print axioms TV.C08.tick_held
@@ -21,3 +22,22 @@ import TvCore.Props.C08Mixed
 #print axioms TV.C08.release_ids
 #print axioms TV.C08.releaseOne_status
 #print axioms TV.C08.deliver_then_release_none_held
+#print axioms TV.LW.linkEnqueue_spec
+#print axioms TV.LW.deliverTo_out
+#print axioms TV.LW.deliverTo_link
+#print axioms TV.LW.turnStep_out
+#print axioms TV.LW.step_link
+#print axioms TV.LW.step_frame
+#print axioms TV.LW.clockOK_run
+#print axioms TV.LinksWorld.held_nothing_delivered
+#print axioms TV.LinksWorld.held_nothing_delivered_syntactic
+#print axioms TV.LinksWorld.held_only_matured
+#print axioms TV.LinksWorld.held_nothing_at_all
+#print axioms TV.LinksWorld.hold_establishes_world
+#print axioms TV.LinksWorld.release_delivers_all_once_in_order
+#print axioms TV.LinksWorld.manual_delivers_exactly_one
+#print axioms TV.LinksWorld.never_duplicated
+#print axioms TV.LinksWorld.held_not_inflight
+#print axioms TV.LinksWorld.other_links_unaffected
+#print axioms TV.LinksWorld.endsHold_exact
+#print axioms TV.LinksWorld.hold_then_nothing_delivered
